@@ -17,7 +17,7 @@ TECH = {
     "C01": "dominance/fact analysis of insertion guards over MIR (GUARD, NOPANIC-AFTER-WRITE, TOTAL, ENCAPS) + crate-wide "
            "bit-matrix write discipline (BITS)",
     "C02": "effect/purity analysis, panic-site discharge, id-source taint and truth-table comparison of derived queries with "
-           "their definitions over MIR (PURE, TOTAL, IDSRC, DEFN)",
+           "their definitions over MIR (PURE, TOTAL, IDSRC, DEFN) + bit-matrix read discipline (BITS)",
     "C03": "typestate/schema conformance of the lazy-deletion Dijkstra iterator over MIR dominance + must-facts",
     "C04": "schema conformance of the BFS iterator over MIR dominance + must-facts",
     "C05": "schema conformance of the predecessor iterators and shortest_path over MIR dominance + must-facts",
